@@ -311,6 +311,17 @@ func genSegs(r *rng) ([]gts.Segment, string) {
 			back[i] = r.bool()
 		}
 	}
+	// members that SHARE residues (an overlapping frameshift-style join, a member repeated): the slicing law
+	// counts positions of the extracted sequence, so shared residues count once per member (seeded W36-2)
+	if n >= 2 && r.intn(4) == 0 {
+		i := r.rangeInt(1, n-1)
+		if r.intn(3) == 0 {
+			lens[i] = lens[i-1]
+			gaps[i] = -lens[i-1] // the same span again
+		} else {
+			gaps[i] = -r.rangeInt(1, lens[i-1])
+		}
+	}
 	ss := mkSegs(lens, gaps, back)
 	orient := []string{"fwd", "bwd", "mixed"}[mode]
 	if mode == 1 || (mode == 2 && r.bool()) {
@@ -394,7 +405,11 @@ func c08Resize(r *Run, reg gts.Region, ss []gts.Segment, m gts.Modifier, tag str
 	rs, ms := encReg(reg), encMod(m)
 	line := "reg.resize " + rs + " " + ms
 	out := r.op(line)
-	total := reg.Len()
+	// the property's `$` is the 3' end of the sequence EXTRACTED from the whole region: the length is
+	// counted on the extracted residues, not asked of Region.Len() (seeded W36-2: a Len() that counts
+	// residues shared by two members once moved `$` and the oracle moved with it)
+	whole := implRegDen(reg)
+	total := len(whole)
 	lo, hi := modBounds(m, total)
 	inside := 0 <= lo && lo <= hi && hi <= total
 	r.count("resize/" + tag + "/" + modForm(m))
@@ -410,7 +425,6 @@ func c08Resize(r *Run, reg gts.Region, ss []gts.Segment, m gts.Modifier, tag str
 		return
 	}
 	got := reg.Resize(m)
-	whole := implRegDen(reg)
 	gd := implRegDen(got)
 	switch {
 	case inside:
@@ -432,6 +446,10 @@ func c08Resize(r *Run, reg gts.Region, ss []gts.Segment, m gts.Modifier, tag str
 		if len(gd) != 0 {
 			r.fail(Failure{Oracle: "inverted bounds select nothing", Op: line, Got: out + " den=" + denStr(gd), Want: "den=[]"})
 		}
+	}
+	if n := reg.Len(); n != total {
+		r.fail(Failure{Oracle: "Region.Len() is the number of residues the region extracts — where the slicing law puts `$` (every member counts its own residues, also those it shares with another member)", Op: "reg.len " + rs,
+			Got: itoa(n), Want: itoa(total)})
 	}
 	// mirror law: the region as seen on the reverse-complemented record
 	L := 150
